@@ -65,32 +65,9 @@ func c30Park(w *c30World, where string) {
 	<-t.gate
 }
 
-func c30Reset(n int) string {
-	c30ProbeWaitHook()
-	if old := c30W; old != nil {
-		old.dead = true
-		for _, t := range old.th {
-			if t.pc != 0 {
-				close(t.gate) // let parked goroutines run to completion; their effects are ignored
-			}
-		}
-		old.m.Stop()
-		for _, t := range old.th {
-			if t.pc != 0 {
-				select {
-				case <-t.done:
-				case <-time.After(30 * time.Second):
-				}
-			}
-		}
-		os.RemoveAll(old.dir)
-	}
-	dir, err := os.MkdirTemp("", "verif-c30-")
-	must(err)
-	w := &c30World{dir: dir}
-	for i := 0; i < n; i++ {
-		w.th = append(w.th, &c30Thread{})
-	}
+// c30NewManager builds a Manager on the world's data directory exactly as Agent.Start does: NewManager,
+// SetCallbacks, LoadState (an absent file is not an error), and Sleep() if the loaded state is SLEEPING.
+func c30NewManager(w *c30World) {
 	cfg := config.Default().Sleep
 	cfg.Enabled = true
 	cfg.PersistState = true
@@ -98,7 +75,7 @@ func c30Reset(n int) string {
 	cfg.PollIntervalJitter = 0
 	cfg.PollDuration = 0
 	cfg.AutoSleepOnStart = false
-	w.m = sleep.NewManager(cfg, dir, nil)
+	w.m = sleep.NewManager(cfg, w.dir, nil)
 	w.m.SetCallbacks(sleep.Callbacks{
 		OnSleep: func() error {
 			if w.free {
@@ -140,6 +117,39 @@ func c30Reset(n int) string {
 			return nil
 		},
 	})
+	_ = w.m.LoadState()
+	if w.m.GetState() == sleep.StateSleeping {
+		_ = w.m.Sleep()
+	}
+}
+
+func c30Reset(n int) string {
+	c30ProbeWaitHook()
+	if old := c30W; old != nil {
+		old.dead = true
+		for _, t := range old.th {
+			if t.pc != 0 {
+				close(t.gate) // let parked goroutines run to completion; their effects are ignored
+			}
+		}
+		old.m.Stop()
+		for _, t := range old.th {
+			if t.pc != 0 {
+				select {
+				case <-t.done:
+				case <-time.After(30 * time.Second):
+				}
+			}
+		}
+		os.RemoveAll(old.dir)
+	}
+	dir, err := os.MkdirTemp("", "verif-c30-")
+	must(err)
+	w := &c30World{dir: dir}
+	for i := 0; i < n; i++ {
+		w.th = append(w.th, &c30Thread{})
+	}
+	c30NewManager(w)
 	verifhook.Point = func(name string) {
 		switch name {
 		case "sleep.Poll.after-first-unlock":
@@ -423,6 +433,20 @@ func c30Run(line string) string {
 	switch f[0] {
 	case "stress":
 		return c30Stress(w, f)
+	case "restart", "restart-stop":
+		// process restart at a quiescent point: a new Manager on the same data directory (restart-stop: after
+		// the old one's graceful Stop(), which persists). Poll() invocations in flight cannot be killed
+		// from here as a process exit would, so the step is only taken when none is.
+		for _, t := range w.th {
+			if t.pc != 0 {
+				return c30Out(w, "disabled")
+			}
+		}
+		if f[0] == "restart-stop" {
+			w.m.Stop()
+		}
+		c30NewManager(w)
+		return c30Out(w, "ok")
 	case "sleep":
 		return c30Out(w, c30Err(w.m.Sleep()))
 	case "wake":
@@ -557,6 +581,12 @@ func c30Gen(w *bufio.Writer, seed int64, tier string) {
 				try("sleep", s)
 			}
 		}
+		if s.pc == [2]int{} && len(path) > 0 && !strings.HasPrefix(path[len(path)-1], "restart") {
+			try("restart", s) // process restart at a quiescent point resumes the persisted state
+			if d == 1 {
+				try("restart-stop", s)
+			}
+		}
 		for i := 0; i < 2; i++ {
 			n := s
 			switch s.pc[i] {
@@ -580,6 +610,19 @@ func c30Gen(w *bufio.Writer, seed int64, tier string) {
 				}
 				try(fmt.Sprintf("end %d", i), n)
 			}
+		}
+	}
+	// always: restarts between completed transitions, with and without a graceful Stop()
+	for _, sc := range [][]string{
+		{"sleep", "restart", "wake", "restart", "sleep", "restart-stop", "wake", "restart-stop"},
+		{"sleep", "begin 0", "invoke 0", "ret 0", "end 0", "restart", "wake", "restart", "wake"},
+		{"sleep", "restart", "begin 0", "invoke 0", "ret 0", "end 0", "restart", "wake", "restart-stop", "sleep", "restart"},
+		{"restart", "sleep", "wake", "restart", "sleep", "restart", "begin 1", "restart", "invoke 1", "wake", "ret 1", "end 1", "restart"},
+		{"sleep", "restart-stop", "wake", "restart", "restart", "sleep", "wake", "restart-stop", "wake"},
+	} {
+		fmt.Fprintln(w, "reset 2")
+		for _, o := range sc {
+			fmt.Fprintln(w, o)
 		}
 	}
 	dfs(cs{}, depth)
@@ -648,6 +691,8 @@ func c30Gen(w *bufio.Writer, seed int64, tier string) {
 				fmt.Fprintln(w, "sleep")
 			case x < 36:
 				fmt.Fprintln(w, "wake")
+			case x < 44:
+				fmt.Fprintln(w, r.pickS("restart", "restart", "restart-stop"))
 			default:
 				fmt.Fprintf(w, "%s %d\n", r.pickS("begin", "begin", "invoke", "invoke", "ret", "ret", "end", "end"), r.intn(nt+1))
 			}
